@@ -96,6 +96,17 @@ class NDArray:
             col = flat // (h * C3); rem = flat - col * (h * C3); row = rem // C3; ch = rem - row * C3
             return src(row, col, ch)
         return RawBlob(fn, self.shape)
+    def squeeze(self, axis=None):
+        """drop every axis of length 1 (symbolic sides: solver-decided)"""
+        if axis is not None: raise HarnessError('ndmodel: squeeze(axis) not modelled')
+        keep = [k for k, d in enumerate(self.shape) if not bool(d == 1)]
+        if len(keep) == len(self.shape): return self
+        old = self.buf.fn; full = len(self.shape)
+        def fn(i, j, c, keep=keep, old=old):
+            idx = [0, 0, 0]
+            for pos, val in zip(keep, (i, j, c)): idx[pos] = val
+            return old(idx[0], idx[1], idx[2])
+        return NDArray(Buffer(fn), tuple(self.shape[k] for k in keep), self.flags.writeable)
     def ravel(self, order='C'): return FlatArr(self._flat(order))
     def flatten(self, order='C'): return FlatArr(self._flat(order))
     def tobytes(self, order='C'): return self._flat(order)
@@ -136,6 +147,12 @@ class FlatView:
         shape = tuple(shape[0]) if len(shape) == 1 and isinstance(shape[0], (tuple, list)) else tuple(shape)
         blob = self.blob
         if not isinstance(blob, RawBlob): raise TypeError('reshape of a non raw blob')
+        if any(isinstance(d, int) and d == -1 for d in shape):       # numpy infers the remaining axis from the buffer size
+            if shape.index(-1) != 2 or len(shape) != 3: raise HarnessError(f'ndmodel: unmodelled reshape {shape}')
+            shape = (shape[0], shape[1], 3 if len(blob.shape) == 3 else 1)
+            arr = self.reshape(shape[0], shape[1], shape[2]) if shape[2] == 3 else self.reshape(shape[0], shape[1])
+            if shape[2] == 1: arr.shape = (arr.shape[0], arr.shape[1], 1)
+            return arr
         src = blob.shape; sc = 3 if len(src) == 3 else 1; dc = 3 if len(shape) == 3 else 1
         if sc == dc and (src[0] == shape[0]) and (src[1] == shape[1]):        # (symbolic sides: solver-decided branch)
             return NDArray(Buffer(blob.fn), shape, True)
